@@ -17,6 +17,7 @@ import (
 type Sub struct {
 	Kind  string `json:"kind"`  // with | withres | withgroup | get | call | nested
 	Group string `json:"group"` // model group: g1 | g2 | par
+	Slow  bool   `json:"slow,omitempty"` // the callback stays inside for a few hundred microseconds
 }
 
 // Program is what one run executes.
@@ -68,6 +69,7 @@ type Scenario struct {
 	memMu sync.Mutex
 
 	expect    sync.Map // callback id -> the worker group it must run in
+	slow      sync.Map // callback id -> stays inside for a while
 	serveDone chan error
 	wg        sync.WaitGroup
 	pwg       sync.WaitGroup // producers and API callers only
@@ -116,6 +118,14 @@ func (sc *Scenario) body(cb string, group string) {
 		_ = p
 	}
 	sc.tr.Gate("cb.body", cb)
+	if _, ok := sc.slow.Load(cb); ok {
+		time.Sleep(250 * time.Microsecond)
+	}
+	if group != "" && sc.tr.Suspect(group) {
+		// two work items of this group were seen alive together: stay inside long enough for the
+		// other one to be picked up, so that the overlap - if the scheduler allows it - is observed
+		time.Sleep(2 * time.Millisecond)
+	}
 	sc.tr.Log("cb.end", cb, group)
 	atomic.AddInt32(ctr, -1)
 }
@@ -164,6 +174,11 @@ func cbFromQuery(q string) string { return strings.TrimPrefix(q, "cb=") }
 
 // submit performs one submission on the calling goroutine.
 func (sc *Scenario) submit(cb string, sub Sub) {
+	if sub.Kind == "pause" {
+		// not a submission: the producer lets the workers catch up
+		time.Sleep(time.Duration(40+len(cb)*7%160) * time.Microsecond)
+		return
+	}
 	rid := groupRID[sub.Group]
 	gid := groupID[sub.Group]
 	if sub.Group == "g2" && len(cb)%2 == 0 {
@@ -175,10 +190,25 @@ func (sc *Scenario) submit(cb string, sub Sub) {
 	if sub.Kind != "withgroup" && sub.Kind != "nomatch" {
 		sc.expect.Store(cb, gid)
 	}
+	if sub.Slow {
+		sc.slow.Store(cb, true)
+	}
 	sc.tr.Log("sub.call", cb, gid, sub.Kind)
 	switch sub.Kind {
 	case "with":
 		err := sc.svc.With(rid, func(r res.Resource) { sc.body(cb, r.Group()) })
+		if err != nil {
+			sc.violate("C02", "with-error", fmt.Sprintf("With(%q) returned %v although a handler matches", rid, err), nil)
+		}
+	case "nested":
+		// the callback itself submits work for another group before it returns
+		err := sc.svc.With(rid, func(r res.Resource) {
+			sc.body(cb, r.Group())
+			ncb, ng := cb+"n", "nest."+cb // a group of its own: always a new work item
+			sc.tr.Log("sub.call", ncb, ng, "withgroup")
+			sc.svc.WithGroup(ng, func(*res.Service) { sc.body(ncb, ng) })
+			sc.tr.Log("sub.ret", ncb)
+		})
 		if err != nil {
 			sc.violate("C02", "with-error", fmt.Sprintf("With(%q) returned %v although a handler matches", rid, err), nil)
 		}
